@@ -43,6 +43,13 @@
 //     of a bucket boundary; the generator only draws such values (exact
 //     powers of two are boundaries and are left to C07), and a stream that
 //     received any other value (hand-edited replay) skips the bucket clause.
+//   - Numbers: int64 instruments (every kind, sync and observable) are
+//     modelled, accumulated and compared in exact int64 arithmetic (type num),
+//     with values around and beyond 2^53 (2^53, 2^53+1, 3*2^52, 2^60,
+//     MaxInt64/4 ...) mixed with 1, 3, ... across cycles; at most three huge
+//     values per synchronous stream keep the exact totals inside int64.
+//     float64 instruments only receive exactly summable values (k/8, small
+//     multiples of 2^-10) and are compared exactly as float64.
 //   - A callback may return an error. What the unchanged tree does is pinned:
 //     the observations it made before returning count (a callback that fails
 //     before observing has observed nothing), Collect returns the error
@@ -188,6 +195,7 @@ const (
 type Obs struct {
 	Set int    `json:"set"`
 	V   vk.F64 `json:"v"`
+	I   int64  `json:"i,omitempty"` // int64 instruments: added (exactly) to the integral V
 	Via int    `json:"via"`
 }
 
@@ -208,6 +216,7 @@ type Op struct {
 	Inst     int    `json:"inst,omitempty"`
 	Set      int    `json:"set,omitempty"`
 	V        vk.F64 `json:"v"`
+	I        int64  `json:"i,omitempty"` // rec on an int64 instrument: the value is int64(V) + I, exactly
 	Plan     []Obs  `json:"plan,omitempty"`
 	CB       int    `json:"cb,omitempty"`
 	CumFirst bool   `json:"cum_first,omitempty"` // collect: cumulative reader first
@@ -311,6 +320,30 @@ func genEighths(lo, hi int) *rapid.Generator[vk.F64] {
 
 func genInts(lo, hi int) *rapid.Generator[vk.F64] {
 	return rapid.Map(rapid.IntRange(lo, hi), func(k int) vk.F64 { return vk.F64(float64(k)) })
+}
+
+// hugeInts: int64 magnitudes around and beyond 2^53, where a float64 stops
+// being able to hold every integer. None exceeds MaxInt64/4, and a synchronous
+// stream gets at most three of them, so exact running totals stay within
+// int64. (Some convert to a float64 that is a power of two or sits next to
+// one; an exponential-histogram stream that receives such a value skips the
+// bucket clause, not the count / sum / min / max clauses.)
+var hugeInts = []int64{
+	1 << 53, 1<<53 + 1, 1<<53 - 1, 3 << 52, 3<<52 + 1, 1 << 60, 5 << 58, 7 << 57, 5<<58 + 3, math.MaxInt64 / 4, math.MaxInt64/4 - 1,
+}
+
+const maxHugePerStream = 3
+
+func isHuge(n num) bool { return n.isInt && (n.i >= 1<<52 || n.i <= -(1<<52)) }
+
+// genHuge draws a huge int64 for an int64 instrument; negative only where the
+// kind takes negative values.
+func genHuge(t *rapid.T, signed bool) int64 {
+	h := rapid.SampledFrom(hugeInts).Draw(t, "huge")
+	if signed && rapid.Bool().Draw(t, "huge_negative") {
+		h = -h
+	}
+	return h
 }
 
 func genSyncValue(d syncDef) *rapid.Generator[vk.F64] {
@@ -471,6 +504,10 @@ func gen(t *rapid.T) Case {
 		plan := make([]Obs, 0, len(sets))
 		for _, s := range sets {
 			e := Obs{Set: s, V: genObsValue(obsDefs[o]).Draw(t, "obs_v")}
+			if !obsDefs[o].float && rapid.IntRange(0, 5).Draw(t, "obs_huge") == 0 {
+				// deltas are differences of two of these: no overflow
+				e.I = genHuge(t, obsDefs[o].kind != oCounter)
+			}
 			switch r := rapid.IntRange(0, 9).Draw(t, "via_kind"); {
 			case nMulti > 0 && r == 9: // any slot: possibly one that does not list o
 				e.Via = rapid.IntRange(1, nMulti).Draw(t, "via_any")
@@ -514,6 +551,7 @@ func gen(t *rapid.T) Case {
 	if rapid.IntRange(0, 2).Draw(t, "no_bursts") == 0 {
 		burstW = 0
 	}
+	hugeUsed := map[[2]int]int{} // per sync stream; rebuilt on every (re)generation of the case
 	step := rapid.Custom(func(t *rapid.T) Op {
 		w := rapid.IntRange(0, 99).Draw(t, "op")
 		switch {
@@ -545,9 +583,15 @@ func gen(t *rapid.T) Case {
 				CumFirst: rapid.Bool().Draw(t, "other_first")}
 		default:
 			inst := rapid.SampledFrom(syncAct).Draw(t, "inst")
-			return Op{K: "rec", Inst: inst,
+			op := Op{K: "rec", Inst: inst,
 				Set: rapid.IntRange(0, c.NSets-1).Draw(t, "set"),
 				V:   genSyncValue(syncDefs[inst]).Draw(t, "v")}
+			d := syncDefs[inst]
+			if !d.float && hugeUsed[[2]int{inst, op.Set}] < maxHugePerStream && rapid.IntRange(0, 5).Draw(t, "rec_huge") == 0 {
+				hugeUsed[[2]int{inst, op.Set}]++
+				op.V, op.I = 0, genHuge(t, d.kind != kCounter)
+			}
+			return op
 		}
 	})
 	room := maxSteps - 1 - len(c.Ops)
@@ -562,7 +606,7 @@ func TestDeltaCumulative(t *testing.T) {
 		Property: "C08", Check: "delta_vs_cumulative",
 		Rule: "one MeterProvider, a delta and a cumulative ManualReader; history of <= 60 steps over record (sync counter / up-down / explicit + exponential histogram / gauge, int64 and float64; " +
 			"explicit histograms with default, advisory and View boundary lists of 1..25 buckets in two scopes; instruments created up front or at first use), " +
-			"setObservationPlan (observable counter / up-down / gauge fed by instrument callbacks and by RegisterCallback callbacks, incl. observations for instruments a callback is not registered for), " +
+			"int64 values up to MaxInt64/4 around / beyond 2^53 mixed with small ones, float64 values exactly summable; setObservationPlan (observable counter / up-down / gauge fed by instrument callbacks and by RegisterCallback callbacks, incl. observations for instruments a callback is not registered for), " +
 			"register / unregister callback, callbacks that return an error for 1..3 collection steps (before or after observing), concurrent-collect steps (2..3 goroutines Collect on one reader at once, callbacks perturbed by Gosched / 20us..1ms sleeps), collectBoth (each Collect given a fresh ResourceMetrics, the reader's own previous output or a pool slot either reader filled before); 1..5 attribute sets from a fixed pool; " +
 			"non-trivial = >= 3 collections and (a stream that is reported, then absent for a cycle, then reported again, or a multi-instrument callback that observed in a cycle and is unregistered before a later one); distinct = distinct case encodings",
 		Quick: 8000, Thorough: 120000,
